@@ -753,7 +753,8 @@ struct Digit {
 
         using Info_T = DigitUtils::RealNumberInfo<Float_T, number_size>;
         // 4.9406564584124654e-324 needs about 1216 bits to store all its digits.
-        using BigIntSys  = BigInt<SystemIntType, ((Info_T::Bias + 1U) + (number_size * 8U * 3U))>;
+        // Two more words than that: room for the spare bits that are kept while the product is cut down below.
+        using BigIntSys  = BigInt<SystemIntType, ((Info_T::Bias + 1U) + (number_size * 8U * 3U) + 128U)>;
         using DigitConst = DigitUtils::DigitConst<BigIntSys::SizeOfType()>;
 
         const Number_T bias = (number & Info_T::ExponentMask);
@@ -838,8 +839,9 @@ struct Digit {
                     if (times >= DigitConst::MaxPowerOfFive) {
                         // Every cut below loses a little; the words kept have to hold the digits asked for, the
                         // one to round on, and some spare bits so the loss never reaches them.
-                        const SizeT32 max_index = (format.Precision < Info_T::MaxCut)
-                                                      ? (((format.Precision + 3U) / DigitConst::MaxPowerOfTen) + 2U)
+                        const SizeT32 wanted    = (((format.Precision + 3U) / DigitConst::MaxPowerOfTen) + 3U);
+                        const SizeT32 max_index = ((format.Precision < Info_T::MaxCut) && (wanted < b_int.MaxIndex()))
+                                                      ? wanted
                                                       : b_int.MaxIndex();
 
                         do {
